@@ -206,6 +206,31 @@ def _carrying(repo: Repo, t) -> bool:
     return False
 
 
+def _may_hold_filters(repo: Repo, t, depth: int = 0) -> bool:
+    """Conservative: False only if the static type is known and neither it nor what its constructor takes / its annotated
+    attributes hold can carry module filters (flags, strings, classes made of those)."""
+    ms = _members(t)
+    if not ms:
+        return True
+    for m in ms:
+        if m[0] == "b" and m[1] in ("bool", "str", "int", "none", "float"):
+            continue
+        if m[0] == "cls" and depth < 2 and not _carrying(repo, m):
+            ci = repo.classes.get(m[1])
+            if ci is None or ci.bases:
+                return True
+            init = repo.lookup_method(ci, "__init__")
+            anns = [p.annotation for p in init.params[1:]] if init is not None else list(ci.ann_attrs.values())
+            if any(a is None for a in anns):
+                return True
+            T = types_of(repo)
+            if any(_may_hold_filters(repo, T.ann(ci.module, a), depth + 1) for a in anns):
+                return True
+            continue
+        return True
+    return False
+
+
 def _scalar_type(t) -> bool:
     ms = _members(t)
     return bool(ms) and all(m[0] == "b" and m[1] in ("bool", "str", "int", "none", "float") for m in ms)
@@ -662,6 +687,22 @@ def run_r1(repo: Repo, res: Result) -> None:
                             return True
             return False
 
+        pre_relevance: dict[str, bool] = {}
+
+        def relevant_pre(tag: str) -> bool:
+            """Can the state `pre:self.<field>` hold module filters at all?  An object travelling together with the requirement
+            (the behaviour flags handed to the same helper object) leaves its tag on the whole, but says nothing about filters."""
+            if tag not in pre_relevance:
+                name = tag[9:] if tag.startswith("pre:self.") else ""
+                verdicts = []
+                for ci in classes:
+                    for m_ in [*ci.methods.values(), *ci.extra_methods]:
+                        for n_ in own_nodes(m_.node):
+                            if isinstance(n_, ast.Attribute) and n_.attr == name and isinstance(n_.value, ast.Name) and n_.value.id == "self" and isinstance(n_.ctx, ast.Load):
+                                verdicts.append(_may_hold_filters(repo, T.expr(m_, n_)))
+                pre_relevance[tag] = (not verdicts) or any(verdicts)
+            return pre_relevance[tag]
+
         def make_prov(forced: dict[int, bool] | None = None) -> Provenance:
             def assume2(st_if: ast.If, state: dict):
                 if forced and id(st_if) in forced:
@@ -795,7 +836,7 @@ def run_r1(repo: Repo, res: Result) -> None:
             def excuse(t):  # noqa: ANN001
                 """(pre tags that count, does the value come from the conversion or from a regex-free specification, sides delivered)"""
                 acc_sides = {x[4:] for x in t if x.startswith("raw:")}
-                pre_ = sorted(x for x in t if x.startswith("pre:"))
+                pre_ = sorted(x for x in t if x.startswith("pre:") and relevant_pre(x))
                 raw_fine = bool(acc_sides) and acc_sides <= raw_ok and all(x in spec_fields for x in pre_)
                 if raw_fine:
                     pre_ = []
@@ -1142,6 +1183,23 @@ def regex_test(fn: Fn, e: ast.AST) -> RegexTest | None:
                 flags = flags or len(pat.args) > 1 or bool(pat.keywords)
                 pat = pat.args[0] if pat.args else None
             return RegexTest(name.split(".")[1], pat, sub, flags, c)
+        if isinstance(c.func, ast.Attribute) and c.func.attr in ("match", "fullmatch", "search") and isinstance(c.func.value, ast.Subscript) and isinstance(c.func.value.value, ast.Name):
+            # a cache of compiled patterns keyed by the pattern text: every entry is `cache[k] = re.compile(k)`
+            cache = c.func.value.value.id
+            stores = [n for n in ast.walk(fn.fi.node) if isinstance(n, ast.Assign) and any(isinstance(t, ast.Subscript) and isinstance(t.value, ast.Name) and t.value.id == cache for t in n.targets)]
+            others = [n for n in ast.walk(fn.fi.node) if isinstance(n, ast.Call) and isinstance(n.func, ast.Attribute) and isinstance(n.func.value, ast.Name) and n.func.value.id == cache and n.func.attr in ("update", "setdefault", "pop", "popitem", "clear")]
+            inits = [d for d in fn.reaching(cache, fn.ctx_of(c.func.value.value)[1]) if d.kind == "assign"] if parent(fn.ctx_of(c.func.value.value)[1]) is not None else []
+            ok = bool(stores) and not others and all(d.value is not None and isinstance(d.value, ast.Dict) and not d.value.keys for d in inits) and bool(inits)
+            flags = len(c.args) > 1 or bool(c.keywords)
+            for n in stores:
+                t = next(t for t in n.targets if isinstance(t, ast.Subscript) and isinstance(t.value, ast.Name) and t.value.id == cache)
+                v = n.value
+                if not (len(n.targets) == 1 and isinstance(v, ast.Call) and fn.lib_name(v.func) == "re.compile" and v.args and norm(v.args[0]) == norm(t.slice)):
+                    ok = False
+                elif len(v.args) > 1 or v.keywords:
+                    flags = True
+            if ok:
+                return RegexTest(c.func.attr, c.func.value.slice, c.args[0] if c.args else None, flags, c)
         if isinstance(c.func, ast.Attribute) and c.func.attr in ("match", "fullmatch", "search") and isinstance(c.func.value, ast.Call) and fn.lib_name(c.func.value.func) == "re.compile":
             comp = c.func.value
             flags = len(comp.args) > 1 or bool(comp.keywords) or len(c.args) > 1 or bool(c.keywords)
@@ -1203,6 +1261,37 @@ def _first_time_flag(fn: Fn, lit: ast.AST) -> bool:
     return bool(loops_if) and bool(loops_init) and loops_init[0] in loops_if[1:] and loops_if[0] is not loops_init[0]
 
 
+def _first_time_bool(fn: Fn, lit: ast.AST) -> bool:
+    """`flag = False` at the start of every pass of the outer loop; inside the inner loop, *after a successful pattern test*,
+    `if flag: continue` / `if not flag:` and `flag = True`: the guarded block runs for the first inner element that matches."""
+    if not isinstance(lit, ast.Name):
+        return False
+    ctx, orig = fn.ctx_of(lit)
+    if ctx is not fn.fi or parent(orig) is None:
+        return False
+    defs = fn.reaching(orig.id, orig)
+    inits = [d for d in defs if d.kind == "assign" and isinstance(d.value, ast.Constant) and d.value.value is False]
+    sets = [d for d in defs if d.kind == "assign" and isinstance(d.value, ast.Constant) and d.value.value is True]
+    if len(inits) != 1 or not sets or len(inits) + len(sets) != len(defs):
+        return False
+    loops_use = [a for a in ancestors(orig) if isinstance(a, (ast.For, ast.AsyncFor))]
+    loops_init = [a for a in ancestors(inits[0].stmt) if isinstance(a, (ast.For, ast.AsyncFor))]
+    if not loops_use or not loops_init or loops_init[0] not in loops_use[1:] or loops_use[0] is loops_init[0]:
+        return False
+    for d in sets:
+        if loops_use[0] not in list(ancestors(d.stmt)):
+            return False
+        # only a real match may set the flag
+        tested = False
+        for l, p in flatten(fn.conds_all(d.stmt)):
+            rt = regex_test(fn, l)
+            if rt is not None and _success_polarity(l, rt.call) == p:
+                tested = True
+        if not tested:
+            return False
+    return True
+
+
 def matched_pair(fn: Fn, c, modules_param: str, arch_param: str, membership_of: str | None = None, once_per_module: bool = False) -> Matched:
     """Is the contribution made exactly once for every pair (regex filter f of `modules`, module m of `arch.modules`) with
     re.match(f.identifier, m)?  `membership_of`: a literal `f.identifier in <that name>` is tolerated (remove idiom)."""
@@ -1237,6 +1326,8 @@ def matched_pair(fn: Fn, c, modules_param: str, arch_param: str, membership_of: 
             continue  # `if e not in acc: acc.append(e)` - duplicates are not added twice
         if once_per_module and pol and _first_time_flag(fn, lit):
             continue  # added for the first matching pattern of a module only: the same *set* of modules
+        if once_per_module and not pol and _first_time_bool(fn, lit):
+            continue  # the same with a boolean: `if seen: continue; seen = True` after the pattern test, reset per module
         if membership_of is not None and pol and isinstance(lit, ast.Compare) and isinstance(lit.ops[0], ast.In) and _is_identifier_of(lit.left, pv) and dotted(lit.comparators[0]) == membership_of:
             continue
         return Matched(False, f"it additionally depends on `{'' if pol else 'not '}{show(lit)}`")
@@ -2045,6 +2136,18 @@ def run_r4(repo: Repo, res: Result) -> None:
                     why = _own_key_and_whole_sets_only(fn, co, a, bnames, params, key_params)
                     if why:
                         bad.append(f"the search also receives `{show(a, 60)}`{why}")
+                # a collection that all keys share must come back from the search as it went in
+                sf = fn.callee(call)
+                if sf is not None and not isinstance(sf.node, ast.Lambda):
+                    sp = [x.arg for x in [*sf.node.args.posonlyargs, *sf.node.args.args]]
+                    given = dict(zip(sp, call.args))
+                    given.update({k.arg: k.value for k in call.keywords if k.arg})
+                    for pn, a in given.items():
+                        if isinstance(a, ast.Name) and a.id in bnames or isinstance(a, ast.Constant) or (isinstance(a, ast.Attribute) and _is_graph(fn, a)):
+                            continue
+                        hit = _mutates_param(sf, pn)
+                        if hit is not None:
+                            bad.append(f"the search {sf.qualname} changes the collection `{pn}` it is given (`{header(stmt_of(hit))[:60]}`), and `{show(a, 50)}` is shared by all keys of the batch: the result for a key depends on which keys were searched before")
         n += 1
         if unsure4 and not bad:
             res.undecide("C11.R4", base_key + " [independent searches]", unsure4[0], where(view, key_node))
@@ -2074,6 +2177,23 @@ def run_r4(repo: Repo, res: Result) -> None:
         n += 1
         res.add("C11.R4", base_key + " [result per key]", not bad, "the result is stored under the key of the iteration, unconditionally" if not bad else bad[0] + ": the result of a search is not stored under its own key for every key", where(view, key_node), kind="structural")
     res.floor("C11.R4", 12, n)
+
+
+def _mutates_param(f: FuncInfo, pn: str) -> ast.AST | None:
+    """The node in `f` that changes the object the parameter `pn` refers to in place (before `pn` is re-bound), else None."""
+    rebound = [n for n in own_nodes(f.node) if isinstance(n, ast.Name) and n.id == pn and isinstance(n.ctx, ast.Store) and not isinstance(parent(n), ast.AugAssign)]
+    first_rebind = min((getattr(n, "lineno", 10**9) for n in rebound), default=10**9)
+    for x in own_nodes(f.node):
+        tgt = None
+        if isinstance(x, ast.Call) and isinstance(x.func, ast.Attribute) and x.func.attr in ("append", "extend", "add", "update", "remove", "pop", "clear", "discard", "insert", "setdefault", "popitem", "difference_update", "intersection_update", "symmetric_difference_update", "sort", "reverse"):
+            tgt = x.func.value
+        elif isinstance(x, ast.Subscript) and isinstance(x.ctx, (ast.Store, ast.Del)):
+            tgt = x.value
+        elif isinstance(x, ast.AugAssign) and isinstance(x.target, ast.Name) and isinstance(x.op, (ast.BitOr, ast.BitAnd, ast.Sub, ast.Add, ast.BitXor)):
+            tgt = x.target  # s |= t / s -= t change a set / list in place
+        if isinstance(tgt, ast.Name) and tgt.id == pn and getattr(x, "lineno", 0) < first_rebind:
+            return x
+    return None
 
 
 def _helper_search(fn: Fn, co: Collections, call: ast.AST, bnames: set[str], params: list[str], key_params: list[str]) -> tuple[str, str]:
